@@ -87,7 +87,7 @@ func (d *Defs) Define(prefix, sort, body string) string {
 	n := d.fresh(prefix)
 	df := &Def{Name: n, Sort: sort, Body: body, idx: len(d.list)}
 	df.deps = d.scanDeps(body)
-	if sort == "Slice" {
+	if sort == "Slice" || sort == "Str" {
 		df.Body = ""
 		df.opaque = body
 		df.axioms = []string{"(= " + n + " " + body + ")"}
